@@ -21,6 +21,33 @@ import types
 import numpy as np
 
 
+def _from_object_store(obj):
+    import pickle
+    obj = pickle.loads(pickle.dumps(obj))
+    seen = set()
+
+    def freeze(o, depth=0):
+        if id(o) in seen or depth > 12:
+            return
+        seen.add(id(o))
+        if isinstance(o, np.ndarray):
+            if o.dtype != object:
+                o.flags.writeable = False
+            return
+        if isinstance(o, dict):
+            for v in o.values():
+                freeze(v, depth + 1)
+        elif isinstance(o, (list, tuple, set)):
+            for v in o:
+                freeze(v, depth + 1)
+        elif hasattr(o, "__dict__"):
+            for v in vars(o).values():
+                freeze(v, depth + 1)
+
+    freeze(obj)
+    return obj
+
+
 class ObjectRef:
     _n = 0
 
@@ -33,7 +60,10 @@ class ObjectRef:
 
     def result(self):
         if not self._done:
-            self._value = self._thunk()
+            # what a worker returns travels through the object store: it is pickled, and the numpy arrays of the
+            # object handed to the driver are read-only views of the store (real ray: "assignment destination is
+            # read-only" when the driver writes into them)
+            self._value = _from_object_store(self._thunk())
             self._thunk = None
             self._done = True
         return self._value
